@@ -61,19 +61,25 @@ def apply(obj, ev: dict):
     import bind
     ttb = bind.ttb
     op, a = ev["op"], ev["args"]
-    f = float
+    # element type of the multiplicands (their values are integers): a presentation, rotated with the array layout;
+    # a single vector is also handed over bare (not wrapped in a list), as the documentation allows
+    f = {"default": float, "swapped": np.int64, "strided": np.float32, "grown": np.int32}[bind.get_layout()]
+    fk = float          # Kruskal operands document float factor matrices
 
     def dimkw():
         d = np.array(a["dims"], dtype=int)
         return {"exclude_dims": d} if a["excl"] else {"dims": d}
     if op == "ttv":
-        return obj.ttv([np.array(v, dtype=f) for v in a["vecs"]], **dimkw())
+        vecs = [bind.lay(np.array(v, dtype=f)) for v in a["vecs"]]
+        if len(vecs) == 1 and bind.get_layout() in ("strided", "grown"):
+            return obj.ttv(vecs[0], **dimkw())
+        return obj.ttv(vecs, **dimkw())
     if op == "ttm":
-        return obj.ttm([np.array(m, dtype=f) for m in a["mats"]], transpose=bool(a["transp"]), **dimkw())
+        return obj.ttm([bind.lay(np.array(m, dtype=f)) for m in a["mats"]], transpose=bool(a["transp"]), **dimkw())
     if op in ("mttkrp", "mttkrps"):
-        U = [np.array(m, dtype=f) for m in a["U"]]
+        U = [bind.lay(np.array(m, dtype=(fk if a["asK"] else f))) for m in a["U"]]
         if a["asK"]:
-            U = ttb.ktensor(U, np.array(a["w"], dtype=f))
+            U = ttb.ktensor(U, np.array(a["w"], dtype=fk))
         return obj.mttkrp(U, a["n"]) if op == "mttkrp" else obj.mttkrps(U)
     if op == "ttt":
         other = bind.gamma(a["other"])
